@@ -137,6 +137,20 @@ pub fn menu() -> Vec<Op> {
         f.content = c;
         fops.push((format!("size {}", n), f));
     }
+    // sources that are not plain files: a kernel-backed file whose stat size is 0, and a file reached through a symbolic link
+    if std::path::Path::new(KERNEL_SOURCE).exists() {
+        let mut f = base_file();
+        f.dest = "/k/ostype".into();
+        f.content = Content::Kernel;
+        f.mode = ModeSpec::Inherit(0o444);
+        fops.push(("kernel-backed source".into(), f));
+    }
+    {
+        let mut f = base_file();
+        f.dest = "/k/linked".into();
+        f.content = Content::Linked(Box::new(Content::Text(33)));
+        fops.push(("source behind a symbolic link".into(), f));
+    }
     for (n, mt) in [("mtime = source date", 1_600_000_000u32), ("mtime after source date", 1_700_000_000), ("mtime 0", 0)] {
         let mut f = base_file();
         f.dest = format!("/t/{}", mt);
@@ -335,10 +349,11 @@ pub fn read_back(sub: &str, spec: &BuildSpec, p: &rpm::Package, rank: u64, case:
                         }
                     }
                     let want_mtime = match spec.source_date {
+                        Some(sd) if !f.content.mtime_known() => sd, // the kernel's "now" is later than the source date
                         Some(sd) => f.mtime.min(sd),
                         None => f.mtime,
                     };
-                    if e.modified_at.0 != want_mtime {
+                    if (f.content.mtime_known() || spec.source_date.is_some()) && e.modified_at.0 != want_mtime {
                         bad("file.mtime", format!("{}: supplied {} (source date {:?}), read back {}", want_path, f.mtime, spec.source_date, e.modified_at.0));
                     }
                 }
